@@ -20,7 +20,7 @@ RULE = ("Hypothesis draws an environment with declared bounds/domains (ordering-
         "keys of Solution.values must equal the syntactic variable set of the recipes in independent natural "
         "order with the declared bounds, also when the constraints are added in a different order.  "
         "Non-trivial = >= 3 variables from >= 2 declarations, or one vector through a non-identity view."
-        '  Also: vector base names with digits (x2, x10), different views with equal derived names in objective vs constraint, and a bound edited after get_bounds() was read (the next read must show it).')
+        '  Also: vector base names with digits (x2, x10), different views with equal derived names in objective vs constraint, and a bound edited after get_bounds() was read (the next read must show it); a plain number as the objective.')
 BUDGET = {"quick": {"workers": 16, "examples": 600}, "thorough": {"workers": 16, "examples": 8000}}
 ASSUMPTIONS = ["variable names are unique per problem and have no leading zeros (documented preconditions)"]
 MANIFEST = {
@@ -62,6 +62,9 @@ def cases(draw, tier="quick"):
     cons = []
     if stratum == "general":
         obj = g.S(draw(st.integers(1, 3)))
+        if draw(st.integers(0, 11)) == 0:
+            # a plain number as the objective (a feasibility problem): the variables are those of the constraints
+            obj = ["const", draw(st.sampled_from(["pyint", "pyfloat"])), draw(st.sampled_from([0, 3, -2]))]
         for _ in range(draw(st.integers(0, 4))):
             kind = draw(st.sampled_from(["scalar", "scalar", "vector"]))
             if kind == "vector" and src:
@@ -142,7 +145,7 @@ def _build_problem(case, order):
     env = case["env"]
     b = BuildAlg(env)
     obj = b.ev(case["objective"])
-    if not is_expr(obj):
+    if not is_expr(obj) and not (case["objective"][0] == "const" and isinstance(obj, (int, float))):
         return None, None
     P = Problem()
     (P.minimize if case["sense"] == "minimize" else P.maximize)(obj)
